@@ -137,17 +137,27 @@ func copyTree(src, dst string) error {
 // CopyRepo copies the working tree of the repository into the scratch
 // directory and writes the module file the harness is built with.
 func (e *Env) CopyRepo() error {
-	dst := filepath.Join(e.Scr, "repo")
+	_, err := e.CopyRepoAs("repo")
+	return err
+}
+
+// CopyRepoAs makes a named scratch copy with its own module file <name>.mod.
+func (e *Env) CopyRepoAs(name string) (string, error) {
+	dst := filepath.Join(e.Scr, name)
 	if err := copyTree(e.Repo, dst); err != nil {
-		return Troublef("copy %s: %v", e.Repo, err)
+		return "", Troublef("copy %s: %v", e.Repo, err)
 	}
 	mod := "module a0verif\n\ngo 1.21\n\nrequire github.com/islishude/bip39 v0.0.0\n\nreplace github.com/islishude/bip39 => " + dst + "\n"
-	if err := os.WriteFile(filepath.Join(e.Scr, "go.mod"), []byte(mod), 0644); err != nil {
-		return Troublef("%v", err)
+	modName := "go"
+	if name != "repo" {
+		modName = name
+	}
+	if err := os.WriteFile(filepath.Join(e.Scr, modName+".mod"), []byte(mod), 0644); err != nil {
+		return "", Troublef("%v", err)
 	}
 	sum, _ := os.ReadFile(filepath.Join(dst, "go.sum"))
 	own, _ := os.ReadFile(filepath.Join(e.Home, "go.sum"))
-	return os.WriteFile(filepath.Join(e.Scr, "go.sum"), append(sum, own...), 0644)
+	return dst, os.WriteFile(filepath.Join(e.Scr, modName+".sum"), append(sum, own...), 0644)
 }
 
 func (e *Env) RepoCopy() string { return filepath.Join(e.Scr, "repo") }
@@ -167,8 +177,13 @@ func (e *Env) Go(dir string, args ...string) (string, error) {
 
 // BuildHarness builds one harness main package against the scratch copy.
 func (e *Env) BuildHarness(pkg, name string, extra ...string) (string, error) {
+	return e.BuildHarnessMod("go", pkg, name, extra...)
+}
+
+// BuildHarnessMod builds against the scratch copy whose module file is <mod>.mod.
+func (e *Env) BuildHarnessMod(mod, pkg, name string, extra ...string) (string, error) {
 	out := filepath.Join(e.Scr, "bin", name)
-	args := []string{"build", "-modfile=" + filepath.Join(e.Scr, "go.mod"), "-trimpath", "-tags", "verif"}
+	args := []string{"build", "-modfile=" + filepath.Join(e.Scr, mod+".mod"), "-trimpath", "-tags", "verif"}
 	args = append(args, extra...)
 	args = append(args, "-o", out, pkg)
 	if o, err := e.Go(e.Home, args...); err != nil {
